@@ -60,7 +60,7 @@ inductive V (O : Type)
   | unit
   deriving Repr, Inhabited
 
-inductive AOp | add | sub | mul | mod | band | bxor | bor | shr | shl
+inductive AOp | add | sub | mul | mod | band | bxor | bor | shr | shl | div
   deriving DecidableEq, Repr
 inductive COp | lt | le | gt | ge | eq | ne
   deriving DecidableEq, Repr
@@ -179,6 +179,7 @@ def aop : AOp → Int → Int → Option Int
   | .bor, a, b => if 0 ≤ a ∧ 0 ≤ b then some ((a.toNat ||| b.toNat : Nat) : Int) else none
   | .shr, a, b => if 0 ≤ a ∧ 0 ≤ b then some ((a.toNat >>> b.toNat : Nat) : Int) else none
   | .shl, a, b => if 0 ≤ a ∧ 0 ≤ b then some ((a.toNat <<< b.toNat : Nat) : Int) else none
+  | .div, a, b => if b = 0 then none else some (Int.tdiv a b)
 
 def cop : COp → Int → Int → Bool
   | .lt, a, b => decide (a < b)
